@@ -522,6 +522,9 @@ def default_to_python(s, t, v):
     return val
 
 
+_SUBCLASSES = {}
+
+
 def build_code_schema(s, resolver_for=None, type_resolver_for=None, default_resolver_for=None,
                       subscription_resolver_for=None, order=None):
     """Render the IR through the public constructors. `resolver_for(type, field)` etc. may
@@ -580,30 +583,43 @@ def build_code_schema(s, resolver_for=None, type_resolver_for=None, default_reso
             return out
         return thunk
 
+    # applications subclass the library's type classes (the library does so itself: RegexType): a
+    # third of the types are instances of trivial subclasses
+    subclasses = _SUBCLASSES
+
+    def cls(base, name):
+        from ..core import h64
+
+        if int(h64("subclass:" + name)[:4], 16) % 3:
+            return base
+        if base not in subclasses:
+            subclasses[base] = type("Vf" + base.__name__, (base,), {})
+        return subclasses[base]
+
     for st in s.types.values():
         if st.kind == "enum":
-            built[st.name] = S.EnumType(
+            built[st.name] = cls(S.EnumType, st.name)(
                 st.name, [S.EnumValue(v.name, v.value, deprecation_reason=v.deprecation, description=v.description)
                           for v in st.values], description=st.description)
         elif st.kind == "scalar":
             if st.strict:
                 ser, par, lit = strict_scalar_fns(st.name)
-                built[st.name] = S.ScalarType(st.name, ser, par, lit, description=st.description)
+                built[st.name] = cls(S.ScalarType, st.name)(st.name, ser, par, lit, description=st.description)
             else:
-                built[st.name] = S.ScalarType(st.name, lambda v: v, lambda v: v,
+                built[st.name] = cls(S.ScalarType, st.name)(st.name, lambda v: v, lambda v: v,
                                               lambda node, variables=None: node.value, description=st.description)
         elif st.kind == "input":
-            built[st.name] = S.InputObjectType(st.name, mk_input_fields(st), description=st.description)
+            built[st.name] = cls(S.InputObjectType, st.name)(st.name, mk_input_fields(st), description=st.description)
         elif st.kind == "interface":
-            built[st.name] = S.InterfaceType(
+            built[st.name] = cls(S.InterfaceType, st.name)(
                 st.name, mk_fields(st), description=st.description,
                 resolve_type=type_resolver_for(st.name) if type_resolver_for else None)
         elif st.kind == "union":
-            built[st.name] = S.UnionType(
+            built[st.name] = cls(S.UnionType, st.name)(
                 st.name, (lambda st=st: [built[m] for m in st.members]), description=st.description,
                 resolve_type=type_resolver_for(st.name) if type_resolver_for else None)
         elif st.kind == "object":
-            built[st.name] = S.ObjectType(
+            built[st.name] = cls(S.ObjectType, st.name)(
                 st.name, mk_fields(st), interfaces=(lambda st=st: [built[i] for i in st.interfaces]),
                 description=st.description,
                 default_resolver=default_resolver_for(st.name) if default_resolver_for else None)
